@@ -209,6 +209,11 @@ impl Ctx {
         std::fs::create_dir_all(&links).unwrap();
         std::fs::create_dir_all(&work).unwrap();
         for (n, t) in files {
+            // a symbolic link <name> -> . (a directory entry that leads back to the link directory)
+            if let Some(name) = n.strip_suffix("/@self") {
+                let _ = std::os::unix::fs::symlink(".", links.join(name));
+                continue;
+            }
             // a DIRECTORY named like a link file (only for the harness' own fixed name)
             if let Some(inner) = n.strip_prefix("s1.abcdef01.link/") {
                 let _ = std::fs::create_dir_all(links.join("s1.abcdef01.link"));
@@ -277,7 +282,14 @@ impl Ctx {
                 };
                 let fname = format!("s1.{eight}.link");
                 let mut files = vec![(fname, text.clone())];
-                if d["filename"] == "directory_named_like_a_link" {
+                if d["filename"] == "self_delegation_through_a_directory_link" {
+                    // the step's evidence is a sub-layout (validly signed by the functionary) that delegates the same
+                    // step to the same functionary again, and the sub-directory it is to be verified in is a
+                    // symbolic link back to the link directory: the delegation never bottoms out by itself
+                    let inner = self.good_layout().metadata.clone();
+                    let sub = Metablock::new(inner, &[self.km.sk("k1")]).unwrap();
+                    files = vec![(format!("s1.{own}.link"), serde_json::to_string(&sub).unwrap()), (format!("s1.{own}/@self"), String::new())];
+                } else if d["filename"] == "directory_named_like_a_link" {
                     files = vec![("s1.abcdef01.link/inner".to_string(), text.clone())];
                 } else if d["filename"] != "prefix8" {
                     // the honest link stays where it belongs; the odd-named file is an extra
@@ -589,19 +601,6 @@ pub fn mutate(n: usize) -> Value {
     let n_doc_seeds = 7;
     let mut bad = vec![];
     let mut counts = [0usize; 3];
-    // envelope encodings with extreme numbers in their length fields (crafted, not random)
-    for b in crate::c20::extreme_length_inputs() {
-        match offer_bytes(&ctx, &b) {
-            "value" => counts[0] += 1,
-            "error" => counts[1] += 1,
-            _ => {
-                counts[2] += 1;
-                if bad.len() < 8 {
-                    bad.push(json!({"i": "extreme_length", "hex": data_encoding::HEXLOWER.encode(&b)}));
-                }
-            }
-        }
-    }
     for i in 0..n {
         let mut b = seeds[i % seeds.len()].clone();
         let ops = rng.gen_range(1..=3);
